@@ -383,4 +383,33 @@ example :
     ((w.newCustom cs 3 0 2 0).runOn w.insts.length ops).2.length = 4 := by
   decide +kernel
 
+/-- **the sequence after a restart is history-free**: take ANY two histories on ANY two instances (the same instance
+    twice, two default devices, a default and a custom one), each followed by `stop(); start()`.  Two channel objects with
+    the same generator function and dimension then produce the same next `n` outputs, for every `n` — whatever number of
+    samples either had drawn before, whatever their enable flags and dividers are.  (Deterministic generators; the random
+    ones carry the placeholder value, see section 5.) -/
+theorem restart_history_free (cs cs' : List Chan) (i i' : Inst) (ops ops' : List Op) (n : Nat) :
+    ∀ c ∈ (run cs i (ops ++ [.stop, .start])).1, ∀ d ∈ (run cs' i' (ops' ++ [.stop, .start])).1,
+      c.gen = d.gen → c.vdim = d.vdim → c.outputs n = d.outputs n := by
+  intro c hc d hd hg hv
+  have fc := (reset_state c).mp (restart_resets cs i ops c hc)
+  have fd := (reset_state d).mp (restart_resets cs' i' ops' d hd)
+  apply SameGen.outputs
+  refine ⟨hg, hv, fc.2.2.trans fd.2.2.symm, fun hk => ?_, fun hk => ?_⟩
+  · rw [fc.1 hk, fd.1 (by rw [← hg]; exact hk)]
+  · obtain ⟨a, b⟩ := fc.2.1 hk
+    obtain ⟨a', b'⟩ := fd.2.1 (by rw [← hg]; exact hk)
+    exact ⟨a.trans a'.symm, b.trans b'.symm⟩
+
+/-- non-vacuity: the triangle wave (ChannelFunc2) restarted after 3 samples and after 7 samples (two batches, the second
+    cut short by a disable) continues identically -/
+example :
+    let c : Chan := ⟨true, 10, 1, 0, 0, [], some 2, 0, 1, 0⟩
+    let i : Inst := { newInst [0] 3 0 3 0 with flag := true }
+    let i' : Inst := { newInst [0] 3 0 7 0 with flag := true }
+    ((run [c] i [.start, .streamStep]).1.map fun c => (c.cntr, c.sign)) = [(3, 1)] ∧
+    ((run [c] i' [.start, .streamStep]).1.map fun c => (c.cntr, c.sign)) = [(7, 1)] ∧
+    ((run [c] i ([.start, .streamStep] ++ [.stop, .start])).1.map fun c => c.outputs 4) =
+      ((run [c] i' ([.start, .streamStep] ++ [.stop, .start])).1.map fun c => c.outputs 4) := by decide +kernel
+
 end Nxs.C16
